@@ -108,6 +108,39 @@ func genC08(seed uint64, tier string) any {
 	sc := &c08Scenario{Seed: seed}
 	n := r.Range(2, 40)
 	nc := len(u.certs)
+	if r.Chance(1, 8) {
+		// a small PKI laid out on purpose: several verified parents per level in the intermediates pool (a cross-signed
+		// intermediate, the root key under three certificates one of which has pathLenConstraint 0), one anchor in the
+		// roots pool; the additions come in a seeded order, ordinary operations are mixed in, then leaves are verified
+		idx := func(name string) int {
+			for i, x := range u.names {
+				if x == name {
+					return i
+				}
+			}
+			panic("c08: no certificate " + name)
+		}
+		inter := []string{"inter1", "inter1-cross", "root-reissued", "root-reissued-pathlen0", "inter2-shared-ski", "root-rollover-new-with-old"}
+		if r.Bool() {
+			inter = inter[:4]
+		}
+		if r.Chance(1, 3) {
+			for i, j := range r.Perm(len(inter)) {
+				inter[i], inter[j] = inter[j], inter[i]
+			}
+		}
+		for _, name := range inter {
+			sc.Ops = append(sc.Ops, c08Op{Op: "add", Pool: 1, Cert: idx(name)})
+			if r.Chance(1, 4) {
+				sc.Ops = append(sc.Ops, c08Op{Op: "parents", Pool: 1, Cert: r.Intn(nc)})
+			}
+		}
+		sc.Ops = append(sc.Ops, c08Op{Op: "add", Pool: 0, Cert: idx([]string{"root", "root-reissued", "root-same-name-other-key"}[r.Intn(3)])})
+		for k := r.Range(1, 4); k > 0; k-- {
+			sc.Ops = append(sc.Ops, c08Op{Op: "verify", Cert: u.leafs[r.Intn(len(u.leafs))], A: 0, B: 1})
+		}
+		n = r.Range(0, 6)
+	}
 	for i := 0; i < n; i++ {
 		switch r.Pick([]int{5, 4, 2, 2, 2}) {
 		case 4:
